@@ -248,23 +248,34 @@ class ReedMullerCodeEncoder(LinearBlockCodeEncoder):
         y2d = x.reshape(-1, self.code_length)
         device = y2d.device
 
-        # Enumerate all possible messages (2^k of them)
-        import itertools
+        # A word that already is a codeword is its own nearest codeword: its message
+        # follows from the right inverse of G, without enumerating the 2^k messages
+        # (which is infeasible for the larger codes, e.g. RM(3,5) with k = 26)
+        gen = self.generator_matrix.to(torch.float)
+        y_float = y2d.to(torch.float)
+        decoded = (y_float @ self.generator_right_inverse.to(torch.float)) % 2  # (B, k)
+        syndrome = torch.zeros_like(y_float)  # (B, n)
+        search = ~(((decoded @ gen) % 2) == y_float).all(dim=1)  # (B,) words that need the search
 
-        msgs = torch.tensor(list(itertools.product([0, 1], repeat=self.code_dimension)), dtype=torch.float, device=device)  # (M, k)
+        if bool(search.any()):
+            y_search = y2d[search]
 
-        # Generate their codewords
-        cws = (msgs @ self.generator_matrix) % 2  # (M, n)
+            # Enumerate all possible messages (2^k of them)
+            import itertools
 
-        # Compute Hamming distances to each received y
-        diff = (cws.unsqueeze(1) != y2d.unsqueeze(0)).float()
-        dists = diff.sum(dim=2)  # (M, B)
-        best = dists.argmin(dim=0)  # (B,)
+            msgs = torch.tensor(list(itertools.product([0, 1], repeat=self.code_dimension)), dtype=torch.float, device=device)  # (M, k)
 
-        # Pick best messages and their codewords
-        decoded = msgs[best]  # (B, k)
-        pred_cw = cws[best]  # (B, n)
-        syndrome = (pred_cw != y2d).float()  # (B, n)
+            # Generate their codewords
+            cws = (msgs @ gen) % 2  # (M, n)
+
+            # Compute Hamming distances to each received y
+            diff = (cws.unsqueeze(1) != y_search.unsqueeze(0)).float()
+            dists = diff.sum(dim=2)  # (M, B')
+            best = dists.argmin(dim=0)  # (B',)
+
+            # Pick best messages and their codewords
+            decoded[search] = msgs[best]  # (B', k)
+            syndrome[search] = (cws[best] != y_search).float()  # (B', n)
 
         return decoded.reshape(*leading_dims, -1), syndrome.reshape(*leading_dims, -1)
 
